@@ -177,7 +177,7 @@ def monitor(sess, extra):
         if op.ret is None:
             r.violation("C05:noreturn:%s" % op.op, "%s never returned" % op.id, sess, op)
             break
-        if op.op in ("setup_s", "setup_r") and not op.ok():
+        if op.op in ("setup_s", "setup_r", "raw_s", "raw_r") and not op.ok():
             r.inconclusive.append("honest setup failed in C05 workload: %s" % op.outcome())
             return r
         if op.op == "set_seq":
@@ -301,7 +301,29 @@ def build_longrun(env, nfail, aeads):
     return cw
 
 
-MONITORS = {"histories": monitor, "longrun": monitor}
+def build_foreign(env):
+    g = gen.G(env.rnd)
+    cw = cl.CaseW()
+    from ref import aead as refaead
+    for i, aead in enumerate(gen.SEAL_AEADS):
+        s = cw.session(0x0020, 1, aead, sid="F%d" % i)
+        key, bn, es = g.raw(refaead.params(aead)[0]), g.raw(12), g.raw(32)
+        s.call("raw_s", key=key, bn=bn, es=es, out="S")
+        s.call("raw_r", key=key, bn=bn, es=es, out="R")
+        for p in (0, 5, (1 << 32) - 1):
+            s.call("set_seq", ctx="S", seq=p)
+            s.call("set_seq", ctx="R", seq=p)
+            s.call("seal", ctx="S", api="inplace", pt="a0a1a2", aad="-", out="m")
+            for alias in (1 << 8, 1 << 16, 1 << 32, 1 << 40, 3 << 32):
+                if p + alias < M64:
+                    s.call("set_seq", ctx="R", seq=p + alias)
+                    s.call("open", ctx="R", api="inplace", ct="$m.ct", tag="$m.tag", aad="-", kind="alias")
+            s.call("set_seq", ctx="R", seq=p)
+            s.call("open", ctx="R", api="inplace", ct="$m.ct", tag="$m.tag", aad="-", kind="next")
+    return cw
+
+
+MONITORS = {"histories": monitor, "longrun": monitor, "foreign": monitor}
 
 
 def run(env):
@@ -320,6 +342,15 @@ def run(env):
     env.require_complete(res2, "longrun")
     env.pmap(monitor, res2.sessions, workload="longrun")
     env.extra_cov["longest_run_of_rejected_deliveries"] = env.pick(66000, 140000)
+    if not env.quick():
+        ftext = build_foreign(env).text()
+        foreign = {}
+        for target in ("i686-unknown-linux-gnu", "s390x-unknown-linux-gnu"):
+            sessions, note = fw.run_miri(env, "foreign-" + target.split("-")[0], ftext, target=target)
+            foreign[target] = note
+            if sessions is not None:
+                env.pmap(monitor, sessions, workload="foreign", procs=1)
+        env.extra_cov["foreign_targets_under_miri"] = foreign
     if mr.counts["verdict:accept"] < 100 or mr.counts["verdict:reject"] < 100 or mr.counts["verdict:limit"] < 20:
         if not env.violations:
             raise fw.Inconclusive("workload too thin: %s" % {k: v for k, v in mr.counts.items() if k.startswith("verdict")})
